@@ -135,6 +135,22 @@ type Trace struct {
 	HalfShut [2]map[uint64]bool // CloseWrite or Close called on (side, stream)
 	Injected bool
 	Hung     []string
+	spinSeed uint64
+}
+
+var spinSink, spinCounter uint64
+
+// raceSpin is the adaptive delay (spin iterations) between releasing a frame
+// and calling CloseWrite in a "dcw" step.
+var raceSpin = float64(1 << 14)
+
+// spinFor burns a little real CPU time (the bubble's clock is fake).
+func spinFor(n int) {
+	x := uint64(n)
+	for i := 0; i < n; i++ {
+		x = x*2862933555777941757 + 3037000493
+	}
+	spinSink += x
 }
 
 // NewTrace creates the two multiplexers (A odd, B even) over controlled carriers.
@@ -443,6 +459,61 @@ func (t *Trace) Step(tok string) (canon string, out string) {
 		})
 		synctest.Wait()
 		return tok, t.settle(get())
+	case "dcw":
+		// The next frame reaches this side's reader while the program calls
+		// CloseWrite on the stream: a Write that is blocked mid-payload races
+		// with the close-write. Annotated with the data bytes it still sent.
+		side := sideIndex(p[1])
+		id, _ := strconv.ParseUint(p[2], 10, 64)
+		s := t.Streams[side][id]
+		if s == nil {
+			return tok, "nostream"
+		}
+		f, ok := t.Car[1-side].PopOut()
+		if !ok {
+			return tok, "noframe"
+		}
+		t.mu.Lock()
+		t.HalfShut[side][id] = true
+		t.mu.Unlock()
+		wasClosed := isClosedCh(t.Mux[side].Closed())
+		// Real concurrency is wanted here: the frame is released first and the
+		// call follows a (real-time) instant later. The instant is steered to
+		// where the two outcomes (the writer still got its window / it did not)
+		// are about equally likely, which is where the calls really overlap.
+		spinCounter++
+		t.spinSeed = (t.spinSeed+spinCounter)*6364136223846793005 + 1442695040888963407
+		jitter := 0.6 + float64((t.spinSeed>>33)%1000)/1250.0 // 0.6 .. 1.4
+		spin := int(raceSpin * jitter)
+		t.Car[side].Feed(f.Encode())
+		spinFor(spin)
+		get := t.syncCall(tok, func() string { return t.closedResult(side, s.CloseWrite()) })
+		synctest.Wait()
+		n := 0
+		t.Car[side].mu.Lock()
+		for _, g := range t.Car[side].Log {
+			if g.Kind == 3 && g.ID == id {
+				n += len(g.Data)
+			}
+		}
+		t.Car[side].mu.Unlock()
+		if f.Kind == 4 && f.ID == id {
+			if n == 0 {
+				raceSpin *= 1.15
+			} else {
+				raceSpin *= 0.87
+			}
+			if raceSpin < 16 {
+				raceSpin = 16
+			} else if raceSpin > 1<<24 {
+				raceSpin = 1 << 24
+			}
+		}
+		res := get()
+		if !wasClosed && isClosedCh(t.Mux[side].Closed()) {
+			res = "rej:" + RejectName(t.Mux[side].InternalError())
+		}
+		return fmt.Sprintf("dcw:%s:%d:%s:%d", p[1], id, f.String(), n), t.settle(res)
 	case "dr", "dw":
 		side := sideIndex(p[1])
 		id, _ := strconv.ParseUint(p[2], 10, 64)
